@@ -177,6 +177,9 @@ pub fn run_case(case: &Case, rep: &mut Report, verbose: bool) -> bool {
                 *g += *units;
                 drop(g);
                 rf.advance(*units);
+                if rf.elapsed_since_adjust > 86_400 * SEC {
+                    rep.ev("advance_more_than_a_day_after_the_last_adjustment");
+                }
                 let now_u = *u.lock().unwrap();
                 if let Ok(r) = guarded(|| time_units(clk.now())) {
                     probes.push((now_u, r));
@@ -354,7 +357,19 @@ fn gen_case(rng: &mut StdRng, len: usize) -> Case {
     };
     let mut ops = vec![];
     let mut net_step: i128 = 0;
-    for _ in 0..len {
+    // a long quiet period (hours to a week of underlying time without any adjustment)
+    let idle_at = if rng.gen_bool(0.15) { rng.gen_range(0..len) } else { usize::MAX };
+    for k in 0..len {
+        if k == idle_at {
+            ops.push(gen_ppm(rng));
+            for _ in 0..rng.gen_range(2..=60) {
+                ops.push(Op::Advance { units: if rng.gen_bool(0.8) { 10_000 * SEC } else { rng.gen_range(0..=10_000 * SEC) } });
+                if rng.gen_bool(0.1) {
+                    ops.push(Op::Probe);
+                }
+            }
+            ops.push(Op::Probe);
+        }
         let op = match rng.gen_range(0..10) {
             0..=2 => gen_ppm(rng),
             3..=4 => {
@@ -514,7 +529,7 @@ fn linux_overlay(rep: &mut Report, seed: u64) {
 
 pub fn run(rep: &mut Report, tier: &str, seed: u64, shard: (u32, u32), replay: Option<&str>) {
     rep.rule = "operation sequences over {set_frequency, step_clock, advance underlying, probe}; all kind pairs/triples with lattice values enumerated, then seeded random sequences of length <= 50; distinct = distinct sequences; non-trivial = contains at least one adjustment and one advance".into();
-    rep.require(&["advance", "set_frequency", "step_clock", "probe", "probe_past", "linux_overlay_conversions", "ticking_underlying_clock_ops"]);
+    rep.require(&["advance", "set_frequency", "step_clock", "probe", "probe_past", "linux_overlay_conversions", "ticking_underlying_clock_ops", "advance_more_than_a_day_after_the_last_adjustment"]);
     if let Some(path) = replay {
         let v: serde_json::Value = serde_json::from_str(&std::fs::read_to_string(path).unwrap()).unwrap();
         let case: Case = serde_json::from_value(v["case"].clone()).unwrap();
